@@ -143,7 +143,7 @@ def cli(argv=sys.argv, mode='output'):
 
        See: https://massimolauria.net/cnfgen/graphformats.html"""
 
-    with redirect_stdin(args.input), msg_prefix('c '):
+    with redirect_stdin(args.input):
 
         with msg_prefix('GRAPH INPUT: '):
             interactive_msg(ask_kthlist_graph)
@@ -170,7 +170,8 @@ def main():
     setup_SIGINT()
     try:
 
-        cli(sys.argv, mode='output')
+        with msg_prefix('c '):
+            cli(sys.argv, mode='output')
 
     except (ValueError, OverflowError) as e:
         error_msg("GRAPH ERROR: " + str(e))
